@@ -1391,6 +1391,9 @@ func (a *anchors) valueChanging(sl *sx.Slicer) string {
 			if obj.Pkg() != nil && obj.Pkg().Path() == "fmt" {
 				continue
 			}
+			if obj.Name() == "At" && obj.Pkg() != nil && obj.Pkg().Path() == "github.com/EliCDavis/iter" {
+				return "a direct attribute subscript (iterator At) that bypasses the Tri view / index buffer"
+			}
 			return "call of " + obj.Name()
 		}
 	}
